@@ -625,6 +625,23 @@ static bool cop_ensure(VmState *vm, const NvmModule *module,
     return true;
 }
 
+/* Size of cop_serialize_value()'s output for one value */
+static uint64_t cop_serialized_size(const NanoValue *val) {
+    switch (val->tag) {
+    case TAG_INT: case TAG_FLOAT: case TAG_OPAQUE: return 9;
+    case TAG_BOOL: return 2;
+    case TAG_STRING: return 5 + (uint64_t)(val->as.string ? val->as.string->length : 0);
+    case TAG_ARRAY: {
+        uint64_t n = 6;
+        uint32_t count = val->as.array ? val->as.array->length : 0;
+        for (uint32_t i = 0; i < count; i++)
+            n += cop_serialized_size(&val->as.array->elements[i]);
+        return n;
+    }
+    default: return 1;
+    }
+}
+
 bool vm_ffi_call_cop(VmState *vm, const NvmModule *module, uint32_t import_idx,
                      NanoValue *args, int arg_count,
                      NanoValue *result, VmHeap *heap,
@@ -639,18 +656,37 @@ bool vm_ffi_call_cop(VmState *vm, const NvmModule *module, uint32_t import_idx,
                            result, heap, error_msg, error_msg_size);
     }
 
-    /* Build request payload: u32 import_idx + u16 argc + serialized args */
-    uint8_t payload[8192];
+    /* Build request payload: u32 import_idx + u16 argc + serialized args.
+     * Use the stack buffer for small requests, heap for large (strings, arrays) */
+    uint8_t stack_buf[8192];
+    uint8_t *req = stack_buf;
+    uint64_t req_size = 6;
+    for (int i = 0; i < arg_count && i < 16; i++) {
+        req_size += cop_serialized_size(&args[i]);
+    }
+    if (req_size > COP_MAX_PAYLOAD) {
+        snprintf(error_msg, error_msg_size, "COP: arguments too large for FFI payload");
+        return false;
+    }
+    if (req_size > sizeof(stack_buf)) {
+        req = malloc((size_t)req_size);
+        if (!req) {
+            snprintf(error_msg, error_msg_size, "COP: OOM for request (%u bytes)",
+                     (uint32_t)req_size);
+            return false;
+        }
+    }
     uint32_t pos = 0;
-    memcpy(payload + pos, &import_idx, 4);
+    memcpy(req + pos, &import_idx, 4);
     pos += 4;
     uint16_t argc = (uint16_t)arg_count;
-    memcpy(payload + pos, &argc, 2);
+    memcpy(req + pos, &argc, 2);
     pos += 2;
 
     for (int i = 0; i < arg_count && i < 16; i++) {
-        uint32_t n = cop_serialize_value(&args[i], payload + pos, sizeof(payload) - pos);
+        uint32_t n = cop_serialize_value(&args[i], req + pos, (uint32_t)req_size - pos);
         if (n == 0) {
+            if (req != stack_buf) free(req);
 #ifdef NANOLANG_VERIF
             nlv_cop_ev("\"e\":\"fail\",\"why\":\"serialize\"");
 #endif
@@ -661,7 +697,9 @@ bool vm_ffi_call_cop(VmState *vm, const NvmModule *module, uint32_t import_idx,
     }
 
     /* Send request */
-    if (!cop_send(vm->cop_in_fd, COP_MSG_FFI_REQ, payload, pos)) {
+    bool sent = cop_send(vm->cop_in_fd, COP_MSG_FFI_REQ, req, pos);
+    if (req != stack_buf) free(req);
+    if (!sent) {
 #ifdef NANOLANG_VERIF
         nlv_cop_ev("\"e\":\"fail\",\"why\":\"send\"");
 #endif
@@ -694,8 +732,8 @@ bool vm_ffi_call_cop(VmState *vm, const NvmModule *module, uint32_t import_idx,
     if (hdr.msg_type == COP_MSG_FFI_RESULT) {
         if (hdr.payload_len > 0) {
             /* Use stack buffer for small payloads, heap for large (arrays) */
-            uint8_t *recv_buf = (hdr.payload_len <= sizeof(payload))
-                                ? payload
+            uint8_t *recv_buf = (hdr.payload_len <= sizeof(stack_buf))
+                                ? stack_buf
                                 : malloc(hdr.payload_len);
             if (!recv_buf) {
                 snprintf(error_msg, error_msg_size, "COP: OOM for result (%u bytes)",
@@ -707,12 +745,12 @@ bool vm_ffi_call_cop(VmState *vm, const NvmModule *module, uint32_t import_idx,
 #ifdef NANOLANG_VERIF
                 nlv_cop_ev("\"e\":\"fail\",\"why\":\"payload\"");
 #endif
-                if (recv_buf != payload) free(recv_buf);
+                if (recv_buf != stack_buf) free(recv_buf);
                 snprintf(error_msg, error_msg_size, "COP: failed to receive result payload");
                 return false;
             }
             uint32_t consumed = cop_deserialize_value(recv_buf, hdr.payload_len, result, heap);
-            if (recv_buf != payload) free(recv_buf);
+            if (recv_buf != stack_buf) free(recv_buf);
             if (consumed == 0) {
 #ifdef NANOLANG_VERIF
                 nlv_cop_ev("\"e\":\"fail\",\"why\":\"decode\"");
